@@ -1305,6 +1305,14 @@ impl Vm {
             return Ok(());
         }
 
+        // The module body runs in a call frame of its own. If there is none left, say so before
+        // the module is registered: once the error has been delivered to a handler nothing here
+        // can tell that the body was never started.
+        if self.active_fiber().frames.len() == common::FRAMES_MAX {
+            let err = error!(ErrorKind::IndexError, "Stack overflow.");
+            return self.try_handle_error(err);
+        }
+
         let source = match (self.module_loader)(&path) {
             Ok(s) => s,
             Err(e) => {
